@@ -7,7 +7,10 @@
 //            plain, 2 secondary VRF), arrival in nanoseconds.  Hashes are the real Header.Hash().
 //   fin   := f<i>   after all additions Prune(hash_i) and ask again (f0: no finalisation)
 //   order := o<i1>.<i2>. ... a permutation of 1..nblk; a fresh BlockTree is built for every order
-//            and the blocks are added in that order (AddBlock(header_i, arrival_i))
+//            and the blocks are added in that order (AddBlock(header_i, arrival_i)).  An order may
+//            contain one `z`: Prune(hash_fin) happens at that position, between the additions
+//            (an interleaving with the finalisation in between), and not again at the end; the
+//            first three observed fields are then taken at the end and the last two are `-`.
 // observed:
 //   H:<hash_0>,...,<hash_nblk> then one token per order:
 //   B:<adds: number of AddBlock errors>;<BestBlockHash, three calls, as block indices '/'-separated>;
@@ -122,7 +125,13 @@ func c16Run(in string) string {
 	for _, o := range rest[1:] {
 		bt := NewBlockTreeFromRoot(blks[0].header)
 		errs := 0
+		inter := false
 		for _, s := range strings.Split(o[1:], ".") {
+			if s == "z" {
+				inter = true
+				bt.Prune(blks[fin].header.Hash())
+				continue
+			}
 			i := int(vu.UnX(s))
 			if err := bt.AddBlock(blks[i].header, time.Unix(0, blks[i].arrival)); err != nil {
 				errs++
@@ -130,7 +139,9 @@ func c16Run(in string) string {
 		}
 		best := []string{id(bt.BestBlockHash()), id(bt.BestBlockHash()), id(bt.BestBlockHash())}
 		tok := fmt.Sprintf("B:%s;%s;%s", vu.X(uint64(errs)), strings.Join(best, "/"), c16Ids(ids, bt.Leaves()))
-		if fin > 0 {
+		if inter {
+			tok += ";-;-"
+		} else if fin > 0 {
 			bt.Prune(blks[fin].header.Hash())
 			tok += ";" + id(bt.BestBlockHash()) + ";" + c16Ids(ids, bt.Leaves())
 		} else {
@@ -273,6 +284,35 @@ func c16Random(r *vu.RNG, emit func(string)) {
 			toks = append(toks, t)
 		}
 	}
+	if fin > 0 {
+		// interleavings with the finalisation in between: mostly after the finalised block has
+		// been added (then every interleaving must agree), sometimes before (Prune of a block
+		// that is not held yet does nothing)
+		for k := 0; k < 6; k++ {
+			o := c16RandomOrder(r, par)
+			pos := 0
+			for j, v := range o {
+				if v == fin {
+					pos = j + 1
+				}
+			}
+			at := pos + r.Intn(len(o)-pos+1)
+			if r.Chance(1, 8) {
+				at = r.Intn(len(o) + 1)
+			}
+			parts := make([]string, 0, len(o)+1)
+			for j, v := range o {
+				if j == at {
+					parts = append(parts, "z")
+				}
+				parts = append(parts, vu.X(uint64(v)))
+			}
+			if at == len(o) {
+				parts = append(parts, "z")
+			}
+			toks = append(toks, "o"+strings.Join(parts, "."))
+		}
+	}
 	emit(strings.Join(toks, " "))
 }
 
@@ -305,6 +345,9 @@ func c16Gen(r *vu.RNG, n int, emit func(string)) {
 	// equal primary counts, different heights, the lower leaf arrived first: height decides
 	emit("t 0 3 0.1.0.0 0.1.1.5 2.2.0.9 f0 o1.2.3 o2.3.1 o2.1.3")
 	emit("t 0 5 0.1.0.0 0.1.1.5 2.2.0.9 0.1.2.1 4.2.0.2 f0 o1.2.3.4.5 o4.5.2.3.1 o2.4.3.5.1")
+	// the finalisation of block 1 in between: before its children 3, 4 are added / after / last;
+	// block 2 is abandoned, or refused when it comes after the finalisation
+	emit("t 0 4 0.1.0.5 0.1.0.3 1.2.1.0 1.2.0.9 f1 o1.2.3.4 o1.2.z.3.4 o2.1.4.z.3 o2.1.4.3.z o1.z.2.3.4 o1.3.z.4.2")
 	max := 4
 	if vu.Thorough() {
 		max = 5
